@@ -86,3 +86,18 @@ Example c01_discovery_roots_nonvacuous :
   rt_show (fk_run (rd_cfg 0 None) (fs_init LNone) rd_hist_own) =
     [ ([], ROk); ([(SNew, 1); (SIrr, 1)], ROk); ([], ROk); ([(SNew, 2)], ROk); ([], ROk); ([(SNew, 3); (SIrr, 2)], ROk); ([], ROk); ([], ROk) ].
 Proof. vm_compute. repeat split; reflexivity. Qed.
+
+(* OUTSIDE the property's quantifier (no LIB configured, no hold-until-LIB): a root fed twice IS delivered twice.
+   Witness: the root 1, fed again at once and again after its child; all-blocks-trigger on.  The real
+   Forkable does the same (notes_proof_R4/roots_refeed_test.go, TestR4PassThroughRootDeliveredAgain). *)
+Definition pt_cfg : config := mkCfg 0 false false 0 true (mkFilter true true true true) None.
+Definition pt_hist : list block := [ mkBlock 1 1 0 0; mkBlock 1 1 0 0; mkBlock 2 2 1 0; mkBlock 1 1 0 0; mkBlock 3 3 2 0 ].
+
+Theorem c01_passthrough_roots_witness : c01_passthrough_roots_refuted.
+Proof. exists pt_cfg, pt_hist. vm_compute. repeat split; reflexivity. Qed.
+Print Assumptions c01_passthrough_roots_witness.
+
+Example c01_passthrough_trace :
+  rt_show (fk_run pt_cfg (fs_init LNone) pt_hist) =
+    [ ([(SNew, 1)], ROk); ([(SNew, 1)], ROk); ([(SNew, 2)], ROk); ([(SNew, 1)], ROk); ([(SNew, 2); (SNew, 3)], ROk) ].
+Proof. vm_compute. reflexivity. Qed.
